@@ -427,6 +427,11 @@ func Rendezvous(n int) {
 	}
 }
 
+// Ticks grants k firings to the time.Tickers of the run (executor: a ticker's
+// channel is ready while the budget lasts and when it fires relative to the
+// other threads is a scheduling decision). Natively tickers are real.
+func Ticks(k int) {}
+
 // WaitAll joins every goroutine started with Go.
 func WaitAll() {
 	if !Scheduled {
